@@ -20,7 +20,7 @@ from esim import oracles as O
 from esim import values as V
 from esim.driver import Violation
 from esim.run import RunCtx, Tap, run_program
-from esim.simfile import SimFile
+from esim.simfile import SimFile, make_simfile
 from . import base
 
 ID = "C10"
@@ -40,7 +40,7 @@ ASSUMPTIONS = ["value-fidelity half is seeded input generation (no schedule or f
                "aware datetime.time values are not generated (orjson rejects them before the default hook)"]
 
 RICH = ["path", "date", "time", "set", "complex", "nan", "inf", "neg_inf", "datetime", "uuid", "custom",
-        "tuple", "frozen_custom"]
+        "tuple", "frozen_custom", "mixed_set", "none_set", "empty_set"]
 
 
 class Custom(object):
@@ -70,6 +70,12 @@ def make_rich(kind):
         return Custom([1, "a"])
     if kind == "tuple":
         return (1, "a", None)
+    if kind == "mixed_set":
+        return {1, "one"}
+    if kind == "none_set":
+        return {None, "x", 2.5}
+    if kind == "empty_set":
+        return set()
     return None
 
 
@@ -105,7 +111,7 @@ def expected(v, custom_ok):
     if isinstance(v, (datetime.date, datetime.time)):
         return v.isoformat()
     if isinstance(v, (set, frozenset)):
-        return [expected(x, custom_ok) for x in list(v)]
+        return SetOf([expected(x, custom_ok) for x in list(v)])
     if isinstance(v, complex):
         return {"real": v.real, "imag": v.imag}
     if isinstance(v, (list, tuple)):
@@ -116,6 +122,39 @@ def expected(v, custom_ok):
     if isinstance(v, uuid.UUID):
         return str(v)
     raise KeyError(type(v).__name__)
+
+
+class SetOf(list):
+    """Expected encoding of a set: a JSON list in any order."""
+
+
+def unorder(v, want):
+    """Bring the decoded value into the order of the expected one wherever the expectation is a set."""
+    if isinstance(want, SetOf) and isinstance(v, list) and len(v) == len(want):
+        from esim.values import canon
+        rest = list(v)
+        out = []
+        for w in want:
+            for i, x in enumerate(rest):
+                if canon(unorder(x, w)) == canon(_plain(w)):
+                    out.append(unorder(rest.pop(i), w))
+                    break
+            else:
+                return v
+        return out
+    if isinstance(want, list) and isinstance(v, list) and len(v) == len(want):
+        return [unorder(x, w) for x, w in zip(v, want)]
+    if isinstance(want, dict) and isinstance(v, dict):
+        return {k: (unorder(x, want[k]) if k in want else x) for k, x in v.items()}
+    return v
+
+
+def _plain(w):
+    if isinstance(w, list):
+        return [_plain(x) for x in w]
+    if isinstance(w, dict):
+        return {k: _plain(x) for k, x in w.items()}
+    return w
 
 
 def draw_cfg(st):
@@ -137,6 +176,9 @@ def draw_cfg(st):
         "p_bad": [0.0, 0.2, 0.5][st.choose(3, "p_rich")],
         "bad_kinds": RICH,
         "custom_default": bool(st.choose(2, "custom-default")),
+        # which abstract io base class the file objects derive from (none: duck-typed)
+        "bin_base": ["plain", "bufferediobase", "rawiobase", "iobase"][st.choose(4, "bin-base")],
+        "txt_base": ["plain", "textiobase", "iobase"][st.choose(3, "txt-base")],
     }
     if not cfg["custom_default"]:
         cfg["bad_kinds"] = [k for k in RICH if "custom" not in k]
@@ -150,8 +192,8 @@ def draw_cfg(st):
 def setup(rc, interp):
     e = rc.eliot
     kw = {"json_default": my_default} if rc.cfg["custom_default"] else {}
-    rc.fbin = SimFile("bin", text=False)
-    rc.ftxt = SimFile("txt", text=True)
+    rc.fbin = make_simfile(rc.cfg["bin_base"], "bin", text=False)
+    rc.ftxt = make_simfile(rc.cfg["txt_base"], "txt", text=True)
     rc.file = rc.fbin
     rc.tap = Tap(rc, deep=False)
     dests = [e.FileDestination(file=rc.fbin, **kw), e.FileDestination(file=rc.ftxt, **kw), rc.tap]
@@ -252,8 +294,36 @@ def oracle(rc):
             node.succ = _exp(node.succ, custom_ok, kinds)
         elif node.fields is not None:
             node.fields = _exp(node.fields, custom_ok, kinds)
+    by_nid = {}
+    for m in msgs:
+        n = O.nid_of(m)
+        if n is not None:
+            by_nid[n] = m
+    for node in rc.model.all_nodes():
+        m = by_nid.get(node.nid)
+        if m is None:
+            continue
+        if node.kind == "action":
+            node.start = _reorder_sets(node.start, m)
+        elif node.fields is not None:
+            node.fields = _reorder_sets(node.fields, m)
     O.check_forest(msgs, rc.model, order_free=False)
     return tuple(sorted(kinds))
+
+
+def _reorder_sets(want, got):
+    """Sets are written as JSON lists in no particular order: put each expected SetOf into the order the
+    decoded line has, if it holds the same elements."""
+    from esim.values import canon
+    out = {}
+    for k, w in want.items():
+        g = got.get(k)
+        if isinstance(w, SetOf) and isinstance(g, list) and \
+                sorted(map(repr, map(canon, g))) == sorted(map(repr, map(canon, map(_plain, w)))):
+            out[k] = list(g)
+        else:
+            out[k] = _plain(w)
+    return out
 
 
 def _exp(d, custom_ok, kinds):
